@@ -123,6 +123,11 @@ def main():
     check('t_as_bytes', len(rets) == 1 and rets[0][3][0] == 'tup' and rets[0][3][1][0] == rets[0][3][1][1], 'str::as_bytes via a helper and String::as_bytes give the same origin term; got %s' % [x[2] for x in rets])
     o = run('t_lazy_or', ['x', 'a', 'b']); rets = [x for x in o if x[0] == 'ret']
     check('t_lazy_or', sorted(P(x[3]) for x in rets) == ['0', '1', '1'], 'three paths: (x==a) -> 1, (x!=a, x==b) -> 1, neither -> 0; got %s' % [(x[1], x[2]) for x in rets])
+    o = run('t_for_each', ['a', 'b']); rets = [x for x in o if x[0] == 'ret']
+    check('t_for_each', len(rets) == 1 and peq(rets[0][3], ('add', S('a'), S('b'))), 'for_each over a known array runs the closure on the real state: a + b; got %s' % [x[2] for x in rets])
+    o = run('t_try_for_each', ['v', 'lim']); oks = [x for x in o if x[0] == 'ok']; errs = [x for x in o if x[0] == 'err']
+    check('t_try_for_each', sorted(P(x[3]) for x in oks)[:3] == ['Ok(0)', 'Ok(1)', 'Ok(2)'] or len(oks) == 3, 'try_for_each: 0, 1, 2 completed iterations end Ok(n); got %s' % [x[2] for x in oks])
+    check('t_try_for_each', len(errs) >= 1, 'try_for_each: an element above the limit breaks out with Err; got %s' % [x[2] for x in errs])
     # engine: equalities implied by order facts (total order): b<a false, m==a, m<b false ==> a==b
     import engine as _e
     class _PV(_e.PathView):
